@@ -32,14 +32,15 @@ type CtlRec struct {
 }
 
 type Ledger struct {
-	Recs         []*FdRec // every descriptor creation of this execution, in order
-	BadCloses    []string // closes of descriptors netpoll does not own / that are not open
-	Ctl          []CtlRec
-	CloseLog     []string
-	Dev          Deviations
-	SysLog       []string // when Trace: rendered syscalls
-	ReadErrFds   []int    // descriptors on which an injected read error was returned
-	EventfdReads int      // read(2) calls netpoll issued on eventfd descriptors (poller wake-ups served)
+	Recs           []*FdRec // every descriptor creation of this execution, in order
+	BadCloses      []string // closes of descriptors netpoll does not own / that are not open
+	Ctl            []CtlRec
+	CloseLog       []string
+	Dev            Deviations
+	SysLog         []string    // when Trace: rendered syscalls
+	ReadErrFds     []int       // descriptors on which an injected read error was returned
+	EventfdReadsBy map[int]int // per eventfd descriptor
+	EventfdReads   int         // read(2) calls netpoll issued on eventfd descriptors (poller wake-ups served)
 }
 
 // Deviations enabled by the scenario (all off = the kernel's real answers only).
@@ -229,7 +230,15 @@ func Read(fd int, p []byte) (int, error) {
 	}
 	if led != nil {
 		if r := led.find(fd); r != nil && r.Kind == "eventfd" {
+			// netpoll's wake-up eventfd is a BLOCKING descriptor: a read with nothing written blocks
+			// in the kernel, where the scheduler could not see it (the worker would hang). Modelled as
+			// a blocking operation: enabled iff the counter is non-zero; never enabled = deadlock verdict.
+			vsched.Block(vsched.KSys, vsched.ObjKernel, "read(eventfd)", func() bool { return Readable(fd) })
 			led.EventfdReads++
+			if led.EventfdReadsBy == nil {
+				led.EventfdReadsBy = map[int]int{}
+			}
+			led.EventfdReadsBy[fd]++
 		}
 	}
 	return rawRead(fd, p)
